@@ -1,6 +1,9 @@
 """C17 -- bookmarks become a well-formed outline that reads back."""
+import sys
 import propcheck
 from sxg import *
+
+sys.setrecursionlimit(max(sys.getrecursionlimit(), 20000))   # chains of 1000 bookmarks in the thorough tier
 
 PALETTE = ['0', '1', '0.5', '0.25', '0.75']
 
